@@ -111,7 +111,28 @@ def make_scenarios(ctx, count):
                 off += ln
         else:
             switch_at = None
-        s.meta = dict(reqs=reqs, glob=glob, mtu=mtu, own=cfg["mac"], globs=globs, switch_at=switch_at)
+        mtu_at, mtu2 = None, None
+        if rng.random() < 0.35:
+            # the link's MTU changes while the interface lives on (jumbo frames switched off or on, a tunnel coming up): what
+            # fits in a response is decided by the MTU at the time of the request
+            mtu2 = rng.choice([576, 1500, 9000, max(576, mtu - 1), mtu + 1, rng.randint(576, 9216)])
+            if mtu2 != mtu:
+                s.add("MTU 0 %d %d" % (mtu2, cfg["rxseed"]))
+                mtu_at = len(reqs)
+                g_now = globs[-1]
+                P2 = mtu2 - 34
+                for typ in rng.sample([0x0E, 0x11, 0x13], rng.randint(1, 3)):
+                    d = data_for(g_now, typ)
+                    off = 0
+                    while True:
+                        q = nseq()
+                        feed(W.qlt(net.own, net.mappers[m], q, typ, off, eth_src=net.bridges[m] if bridged else None),
+                             ("reasm3", typ, off, q))
+                        ln = min(P2, max(0, len(d) - off))
+                        if len(d) - off <= ln or off + ln > 0xFFFF:
+                            break
+                        off += ln
+        s.meta = dict(reqs=reqs, glob=glob, mtu=mtu, own=cfg["mac"], globs=globs, switch_at=switch_at, mtu_at=mtu_at, mtu2=mtu2)
         scns.append(s)
     return scns
 
@@ -158,6 +179,8 @@ def monitor(scn, sobj, rep, sf, ck):
         r = reqs[idx]
         if switch_at is not None and idx >= switch_at:
             glob = globs[1]
+        if sobj.meta.get("mtu_at") is not None and idx >= sobj.meta["mtu_at"]:
+            mtu = sobj.meta["mtu2"]
         if r[0] == "other":
             continue
         _, typ, off, q = r
@@ -199,10 +222,17 @@ def monitor(scn, sobj, rep, sf, ck):
             reasm.setdefault(typ, []).append((off, payload, more))
         elif r[0] == "reasm2":
             reasm.setdefault("second-session-icon", []).append((off, payload, more))
+        elif r[0] == "reasm3":
+            reasm.setdefault(("after-mtu-change", typ), []).append((off, payload, more))
         if ln > 0:
             rep.nontrivial((mtu, typ, len(d), off))
     for typ, chunks in reasm.items():
-        d = data_for(globs[-1], 0x0E) if typ == "second-session-icon" else data_for(globs[0], typ)
+        if isinstance(typ, tuple):
+            rep.count("reassemblies_after_mtu_change")
+            typ = typ[1]
+            d = data_for(globs[-1], typ)
+        else:
+            d = data_for(globs[-1], 0x0E) if typ == "second-session-icon" else data_for(globs[0], typ)
         if typ == "second-session-icon":
             rep.count("second_session_reassemblies")
             typ = 0x0E
@@ -253,6 +283,7 @@ def run(ctx):
     rep.need("friendly-name-ends-in-a-zero-word", c.get("content:friendly-name-ends-in-a-zero-word", 0), 30)
     rep.need("icon-ends-in-a-zero-byte", c.get("content:icon-ends-in-a-zero-byte", 0), 10)
     rep.need("second_session_reassemblies", c.get("second_session_reassemblies", 0), 300)
+    rep.need("reassemblies_after_mtu_change", c.get("reassemblies_after_mtu_change", 0), 200)
     if ctx.quick:
         sw = H.build(ctx.work, "asan", program="vh_sweep", esp32=False)
         args = []
